@@ -27,9 +27,9 @@ class Contract:
     def __init__(self, qualname, params=None, requires=None, ensures=None,
                  raises=None, modifies=None, loops=None, locals=None,
                  inline=None, externals=None, returns=None, free=None,
-                 lets=None, yields=None, variants=None, prop=None,
+                 lets=None, yields=None, variants=None, prop=None, defs=None, instantiate=None,
                  raises_only_if=None, replay=None, setup=None, pure=False,
-                 ghost_after=None, noreturn_ok=True, doc=''):
+                 ghost_after=None, ghost_entry=None, doc=''):
         self.qualname = qualname
         self.params = dict(params or {})
         self.requires = _labelled(requires, 'pre')
@@ -46,6 +46,8 @@ class Contract:
         self.returns = returns
         self.free = dict(free or {})
         self.lets = dict(lets or {})
+        self.defs = dict(defs or {})          # name -> (var, body): forall var. body, a *definition* of a ghost map
+        self.instantiate = dict(instantiate or {})  # name -> [exprs] instances assumed before proving the post
         self.yields = yields
         self.variants = variants
         self.prop = prop
@@ -53,6 +55,7 @@ class Contract:
         self.setup = setup
         self.pure = pure
         self.ghost_after = ghost_after
+        self.ghost_entry = ghost_entry
         self.doc = doc
 
 
@@ -75,17 +78,35 @@ class Result:
 
 # ------------------------------------------------------------------ proving
 
-def prove(ex, name, formula, detail=''):
-    """discharge  pc => formula ; record the obligation; continue assuming it"""
+def prove(ex, name, formula, detail='', env=None):
+    """discharge  pc => formula ; record the obligation; continue assuming it.
+    A refuted obligation that matches a recorded finding (known_findings.txt)
+    is re-checked under the negation of the finding's witness clause: only if
+    *every* counterexample is the recorded one does it count as known."""
     P = ex.path
     if isinstance(formula, bool):
         formula = z3.BoolVal(formula)
     t0 = time.time()
     v, model, backend = smt.check(P.pc + [z3.Not(formula)], want_model=True)
+    verdict = {'unsat': 'proved', 'sat': 'refuted'}.get(v, 'unknown')
+    known = None
+    if v == 'sat':
+        full = ex.root.qualname + '/' + name
+        for fid, wclause in ex.world.findings.get(full, []):
+            try:
+                wit = ex.spec_bool(wclause, env, ex.old_store) if wclause else z3.BoolVal(True)
+            except ContractError as e:
+                raise ContractError('finding %s: witness clause: %s' % (fid, e))
+            v2, model2, _ = smt.check(P.pc + [z3.Not(formula), z3.Not(wit)], want_model=True)
+            if v2 == 'unsat':
+                verdict, known = 'known', fid
+                break
+            if v2 == 'sat' and model2 is not None:
+                model = model2
     dt = time.time() - t0
-    ob = Obligation(name, {'unsat': 'proved', 'sat': 'refuted'}.get(v, 'unknown'),
-                    backend, list(P.taken), None, detail)
+    ob = Obligation(name, verdict, backend, list(P.taken), None, detail)
     ob.seconds = dt
+    ob.known = known
     if v == 'sat':
         ob.model = extract_model(ex, model) if model is not None else {}
     P.obligations.append(ob)
@@ -182,7 +203,9 @@ def parse_modifies(ex, entries, at):
     out = []
     for ent in entries:
         base, field = ent.rsplit('.', 1)
-        if base in at.world.classes or base in CONTAINERS:
+        is_local = any(base in sc for sc in at.scopes) or any(base in sc for sc in (at.closure or [])) \
+            or base in at.spec_env
+        if not is_local and (base in at.world.classes or base in CONTAINERS):
             fields = [field]
             if field == '*':
                 fields = list(container_fields(base)) if base in CONTAINERS else list(at.world.classes[base].fields)
@@ -387,6 +410,11 @@ def bind_inputs(ex, contract, node):
             P._assume_wf(v)
             env[name] = v
             ex.inputs[name] = v
+    if 'g' in ex.world.classes:
+        gref = ex.lookup('g')
+        for f, shape in ex.world.classes['g'].fields.items():
+            if not isinstance(shape, MapS):
+                ex.inputs['g.' + f] = P.read_field(gref, f)
     return env, params
 
 
@@ -416,6 +444,8 @@ def run_one_path(ex, contract, node, res):
     ex.old_store = pre
     ex.old_env = dict(env)
     outcome, value = 'return', SNone()
+    if contract.ghost_entry is not None:
+        contract.ghost_entry(ex)
     try:
         ex.run_block(node.body)
     except Return as r:
@@ -438,8 +468,9 @@ def run_one_path(ex, contract, node, res):
         env2['result'] = value
         for name, expr in contract.lets.items():
             env2[name] = ex.spec_eval(expr, env2, pre)
+        assume_instances(ex, contract, contract.instantiate, env2, pre)
         for lab, expr in contract.ensures.items():
-            prove(ex, 'post.' + lab, ex.spec_bool(expr, env2, pre))
+            prove(ex, 'post.' + lab, ex.spec_bool(expr, env2, pre), env=env2)
     else:
         cls = value.cls
         res.exits[cls] = res.exits.get(cls, 0) + 1
@@ -450,13 +481,13 @@ def run_one_path(ex, contract, node, res):
                 break
         if matched is None:
             prove(ex, 'noraise.' + cls, z3.BoolVal(False),
-                  'exception %s (args %r) escapes at line %s' % (cls, value.args, ex.cur_line))
+                  'exception %s (args %r) escapes at line %s' % (cls, value.args, ex.cur_line), env=env2)
         else:
             env2['exc'] = value
             for name, expr in contract.lets.items():
                 env2[name] = ex.spec_eval(expr, env2, pre)
             for lab, expr in contract.raises[matched].items():
-                prove(ex, 'raises.%s.%s' % (matched, lab), ex.spec_bool(expr, env2, pre))
+                prove(ex, 'raises.%s.%s' % (matched, lab), ex.spec_bool(expr, env2, pre), env=env2)
             if matched in contract.raises_only_if:
                 prove(ex, 'raises_only_if.%s' % matched,
                       ex.spec_bool(contract.raises_only_if[matched], env2, pre))
@@ -478,6 +509,20 @@ def run_one_path(ex, contract, node, res):
         # the clause after reporting it); only flag it when nothing was refuted
         if all(o.verdict == 'proved' for o in P.obligations):
             P.obligations.append(ob)
+
+
+def assume_instances(ex, contract, inst, env=None, old_store=None):
+    """assume instances of the contract's ghost-map definitions (each is a
+    universally quantified *definition* of an otherwise unconstrained ghost
+    map, so any instance is a sound assumption); the quantified formula itself
+    is never given to the solver"""
+    for name, exprs in (inst or {}).items():
+        var, body = contract.defs[name]
+        for e in exprs:
+            v = ex.spec_eval(e, env, old_store)
+            env2 = dict(env or {})
+            env2[var] = v
+            ex.path.assume(ex.spec_bool(body, env2, old_store))
 
 
 # ------------------------------------------------------------------ lemmas
